@@ -455,6 +455,8 @@ class Executor:
         self.symbols = {}      # name -> (z3 const, kind info)
         self.max_unwind = max_unwind
         self.hard_unwind = 1 << 20
+        self.prune_all = True
+        self.feas_cache = {}
         self.intrinsics = {}
         self.externs = {}
         self.stats = {'instrs': 0, 'calls': 0, 'merges': 0, 'feas': 0, 'funcs': set()}
@@ -799,9 +801,9 @@ class Executor:
                         self.goto(fn, pending, b, t if c else f, s, env)
                     else:
                         feas_t = feas_f = True
-                        if b in fn.in_loop:
+                        if self.prune_all or b in fn.in_loop:
                             feas_t = self.feasible(s, c)
-                            feas_f = self.feasible(s, bnot(c))
+                            feas_f = self.feasible(s, bnot(c)) if feas_t else True
                         if feas_t and feas_f:
                             s2 = s.fork()
                             s.assume(c)
@@ -854,17 +856,24 @@ class Executor:
         pending.setdefault(key, []).append((s, env, frm))
 
     def feasible(self, st, c):
+        cb = tobool(c)
+        key = (st.pcids, cb.get_id())
+        hit = self.feas_cache.get(key)
+        if hit is not None:
+            return hit[0]
         self.stats['feas'] += 1
         sv = self.feas_solver
         sv.push()
         try:
             for x in st.pc:
                 sv.add(x)
-            sv.add(tobool(c))
-            r = sv.check()
+            sv.add(cb)
+            r = sv.check() != z3.unsat
         finally:
             sv.pop()
-        return r != z3.unsat
+        # keep the ASTs alive: z3 reuses ids of collected terms
+        self.feas_cache[key] = (r, cb, st.pc)
+        return r
 
     # ------------------------------------------------------------ operands
     def operand(self, o, env):
